@@ -489,7 +489,9 @@ func seekToRangeStart(data io.Seeker, ra *ByteRange, size int64) error {
 			}
 			start = size + ra.From
 			if start < 0 {
-				return fmt.Errorf("invalid range: negative start bigger than the file size")
+				// RFC 7233 Section 2.1: if the representation is shorter than
+				// the suffix-length, the entire representation is used.
+				start = 0
 			}
 		} else {
 			start = ra.From
